@@ -272,7 +272,14 @@ func Install() *Model {
 		return nil
 	}
 	vr.Replace("(*go.etcd.io/bbolt.DB).Update", update)
-	vr.Replace("(*go.etcd.io/bbolt.DB).Batch", update)
+	// bbolt's Batch: a function that fails inside a batch is run again on its own (DB.Update) and the result of that
+	// second run is what the caller gets - the function "must be idempotent".
+	vr.Replace("(*go.etcd.io/bbolt.DB).Batch", func(db *bolt.DB, fn func(*bolt.Tx) error) error {
+		if err := update(db, fn); err != nil {
+			return update(db, fn)
+		}
+		return nil
+	})
 	vr.Replace("(*go.etcd.io/bbolt.DB).View", func(db *bolt.DB, fn func(*bolt.Tx) error) error {
 		if m.Closed[db] {
 			return errors.New("database not open")
